@@ -17,7 +17,10 @@ overflow behaviour and whether `debug_assert!(!is_prime(n))` draws from the RNG)
   ecmp.oneshot batch n b1 b2 prof => ok | err d | panic <kind>
   ecm.ecm n b1 b2 prof draws   => fac count        (same for ecmp.ecm)
   selectb n                  => b
-  ecm.factorize n b expected prof draws => p:e,…|curve_count   (same for ecmp.factorize)
+  ecm.factorize n b expected prof draws => p:e,…|curve_count   (b = select_b(n), one bound for the run)
+  ecmp.factorize n b expected prof draws btab => p:e,…|curve_count   (the batched driver calls select_b per
+      work item: b = select_b(n), btab = `d:b,d:b,…` (`_` = empty) lists select_b(d) for the other items
+      d > 1000 handed to ECM; an item missing from the table gives `inconclusive no-bound-for-item`)
   td.factorize n [expected]  => p:e,…
   rfactor mode n             => stdout of `rfactor [--json] n`, newlines escaped
 -/
@@ -243,22 +246,33 @@ def facVerdict (n : Int) (expected : List (Int × Nat)) (impl : String) : String
     | some ans => NTV.Spec.Factor.checkFactorization n ans expected
     | none => "fail:unexpected-" ++ impl
 
+/-- common part of `ecm.factorize` / `ecmp.factorize`; `btab = none` selects the sequential driver -/
+def runFactorize (btab : Option (List (Int × Nat))) (ns bs es profs ds impl : String) : String × String :=
+  match ns.toInt?, bs.toNat?, parsePairs? es, parseProfile? profs with
+  | some n, some b, some expected, some prof =>
+    let s := parseChunks ds
+    let fuel := 16 * (NTV.Elem.bits n.natAbs) + 64
+    let r := match btab with
+      | some tab => factorizePar n b tab s fuel prof
+      | none => factorizeSeq n b s fuel prof
+    -- the b handed to the model must be select_b(n) wherever that is exact
+    let bv := match selectBExact n with
+      | some b0 => if b0 == b then "" else "fail:b-is-not-select_b"
+      | none => ""
+    let v := if bv != "" then bv else facVerdict n expected impl
+    (showFacRes r, v)
+  | _, _, _, _ => bad
+
+/-- `ecm.factorize n b expected prof draws` (5 arguments) and
+`ecmp.factorize n b expected prof draws btab` (6 arguments, `btab` last) -/
 def opFactorize (par : Bool) : Handler := fun args impl =>
-  match args with
-  | [ns, bs, es, profs, ds] =>
-    match ns.toInt?, bs.toNat?, parsePairs? es, parseProfile? profs with
-    | some n, some b, some expected, some prof =>
-      let s := parseChunks ds
-      let fuel := 16 * (NTV.Elem.bits n.natAbs) + 64
-      let r := if par then factorizePar n b s fuel prof else factorizeSeq n b s fuel prof
-      -- the b handed to the model must be select_b(n) wherever that is exact
-      let bv := match selectBExact n with
-        | some b0 => if b0 == b then "" else "fail:b-is-not-select_b"
-        | none => ""
-      let v := if bv != "" then bv else facVerdict n expected impl
-      (showFacRes r, v)
-    | _, _, _, _ => bad
-  | _ => bad
+  match par, args with
+  | false, [ns, bs, es, profs, ds] => runFactorize none ns bs es profs ds impl
+  | true, [ns, bs, es, profs, ds, ts] =>
+    match parsePairs? ts with
+    | some tab => runFactorize (some tab) ns bs es profs ds impl
+    | none => bad
+  | _, _ => bad
 
 def opTrial : Handler := fun args impl =>
   match args with
